@@ -253,6 +253,9 @@ class NDNApp:
                 return
             if lp_pkt.nack is not None:
                 nack_reason = lp_pkt.nack.nack_reason
+                if nack_reason is None:
+                    # NDNLPv2: a Nack header without NackReason means reason None (0)
+                    nack_reason = enc.NackReason.NONE
             else:
                 nack_reason = None
             pit_token = lp_pkt.pit_token
